@@ -993,6 +993,14 @@ VH_TARGET(rt_inject_extract, 1,
   } ps[] = {{&single, "B3Propagator", 0}, {&multi, "B3PropagatorMultiHeader", 1}, {&jaeger, "JaegerPropagator", 2}};
 
   auto round_trip = [&](const P &p, uint8_t fl, bool detailed) {
+    // open finding F15 (multi-header Inject derives X-B3-Sampled from the low hex digit of the flags
+    // byte): when it is listed as open, the multi-header propagator only sees flags 0x00 / 0x01
+    if (p.kind == 1 && (fl & 0xfe) != 0 && vh::excluded("F15"))
+    {
+      if (detailed)
+        vh::count_excluded("F15");
+      fl &= 1;
+    }
     std::unique_ptr<Carrier> car(new Carrier);
     bool stale = detailed && stale_multi && p.kind == 0 && mode == 0;
     if (stale)
